@@ -18,6 +18,10 @@
      where the model has no such parameter; the mutant is KILLED if at least one committed obligation of that model
      (nesting pair with the model on either side, label-exchange symmetry, well-formedness) that holds for the program
      no longer holds for the mutant.  Surviving mutants are the holes of the list.
+     SECOND CLASS (exchange_table): two distinct parameters of the same class exchanged in ALL their occurrences (= the names
+     list transposed relative to the body); killed like the first class, or shown to be a symmetry (same normal form).
+ (d) NAME SEMANTICS (name_table / convention_breaches / unpack_mismatch): the keyword of the library call every declared
+     parameter is handed to, compared per run with the committed table harness/props/c15_names.json.
 """
 import re, json
 from harness.translate import models_dsl as M, models_dsl_norm as N
@@ -409,3 +413,153 @@ def summarize(rows):
     return {'mutants': len(rows), 'mutants_killed': sum(1 for r in rows if r['killed_by']),
             'occurrences': len(occ), 'occurrences_killed': sum(1 for v in occ.values() if all(v)),
             'occurrences_partly_killed': sum(1 for v in occ.values() if any(v) and not all(v))}
+
+# ------------------------------------------------------------------------------------------------
+# SECOND MUTANT CLASS: consistent exchange of two same-kind parameters in ALL their occurrences
+# (= `__param_names__` transposed relative to the body; for a caller who builds the vector from the names the two values
+# arrive exchanged).  No single-occurrence analysis sees it, and no obligation that treats the two parameters alike does.
+def exchange_pairs(names):
+    out = []
+    for i in range(len(names)):
+        for j in range(i + 1, len(names)):
+            c = var_class(names[i])
+            if c != 'other' and c == var_class(names[j]):
+                out.append((i, j, c))
+    return out
+
+def swap_subst(n, i, j):
+    return [['var', j if k == i else i if k == j else k] for k in range(n)]
+
+def exchange_key(model_key, a, b):
+    return '%s|exchange|%s<->%s' % (model_key, a, b)
+
+def exchange_table(data, progs, first_only=True, ob=None, un=None):
+    """-> (rows, obligations, units); one row per (source unit, unordered pair of distinct parameters of the same class):
+    dict(key, model, a, b, cls, affected, identical, killed_by).  `identical`: the exchanged program normalises to the same program
+    in every affected model (the exchange is a provable symmetry: not a mutant).  A body's exchange reaches its wrappers through the
+    call tuple, as a change of the unpack line would; a wrapper's own exchange permutes the variables of its call tuple."""
+    ob = ob or Obligations(data, progs)
+    un = un or Units(progs)
+    rows = []
+    for key in sorted(progs):
+        r = progs[key]
+        if r['kind'] != 'sfs':
+            continue
+        names = r['param_names']; n = len(names)
+        aff = un.affected(key)
+        for i, j, cls in exchange_pairs(names):
+            sw = swap_subst(n, i, j)
+            if key in un.callee:
+                ov = {key: ('vals', [N.subst(sw, v) for v in un.callee[key][1]])}
+            else:
+                ov = {key: ('prog', subst_prog(sw, r['prog']))}
+            mutated = {k: un.derive(k, ov) for k in aff}
+            same = all(N.prog_eq(N.norm(M.assum_of(progs[k]['param_names']), mutated[k]),
+                                 N.norm(M.assum_of(progs[k]['param_names']), progs[k]['prog'])) for k in aff)
+            rows.append({'key': exchange_key(key, names[i], names[j]), 'model': key, 'a': names[i], 'b': names[j], 'cls': cls,
+                         'affected': len(aff), 'identical': same, 'killed_by': [] if same else ob.killers(mutated, first_only)})
+    return rows, ob, un
+
+def summarize_exchange(rows):
+    return {'mutants': len(rows), 'identical': sum(1 for r in rows if r['identical']),
+            'killed': sum(1 for r in rows if r['killed_by']),
+            'surviving': sum(1 for r in rows if not r['identical'] and not r['killed_by'])}
+
+# ------------------------------------------------------------------------------------------------
+# NAME SEMANTICS: which keyword of which library call every declared parameter is handed to
+PULSE_NAME = {(2, (0,), 1): 'phi_2D_admix_1_into_2', (2, (1,), 0): 'phi_2D_admix_2_into_1', (3, (0, 1), 2): 'phi_3D_admix_1_and_2_into_3',
+              (3, (0, 2), 1): 'phi_3D_admix_1_and_3_into_2', (3, (1, 2), 0): 'phi_3D_admix_2_and_3_into_1'}
+INTEGRATE_NAME = {1: 'one_pop', 2: 'two_pops', 3: 'three_pops'}
+
+def _instr_slots(i):
+    """[(function.keyword, expr)] of one instruction, keywords as in the signatures of dadi's numerical layer"""
+    o = i['op']; out = []
+    if o == 'integrate':
+        d = len(i['nus']); fn = INTEGRATE_NAME.get(d, 'integrate%d' % d)
+        suf = (lambda k: '') if d == 1 else (lambda k: str(k + 1))
+        out.append((fn + '.T', i['T']))
+        for k, e in enumerate(i['nus']): out.append(('%s.nu%s' % (fn, suf(k)), e))
+        for a, row in enumerate(i['ms']):
+            for b, e in enumerate(row):
+                if a != b: out.append(('%s.m%d%d' % (fn, a + 1, b + 1), e))
+        for k, e in enumerate(i['gammas']): out.append(('%s.gamma%s' % (fn, suf(k)), e))
+        for k, e in enumerate(i['hs']): out.append(('%s.h%s' % (fn, suf(k)), e))
+        out.append((fn + '.theta0', i['theta0'])); out.append((fn + '.beta', i['beta']))
+    elif o == 'phi1d':
+        for k in ('nu', 'theta0', 'gamma', 'h', 'beta'):
+            out.append(('phi_1D.' + k, i[k]))
+    elif o == 'pulse':
+        fn = PULSE_NAME.get((i['d'], tuple(i['srcs']), i['dst']), 'pulse')
+        for k, e in enumerate(i['fs']):
+            out.append(('%s.%s' % (fn, 'f' if len(i['srcs']) == 1 else 'f%d' % (i['srcs'][k] + 1)), e))
+    elif o == 'admixnew':
+        for k, e in enumerate(i['fs']): out.append(('phi_2D_to_3D_admix.f%d' % (k + 1), e))
+    elif o == 'fromphi_inb':
+        for k, e in enumerate(i['Fs']): out.append(('from_phi_inbreeding.Fs[%d]' % k, e))
+        for k, e in enumerate(i['ploidy']): out.append(('from_phi_inbreeding.ploidys[%d]' % k, e))
+    elif o == 'mscmd':
+        for k, e in enumerate(i['es']): out.append(('ms.value[%d]' % k, e))
+    return out
+
+def param_uses(prog, prefix=''):
+    """{parameter index: set of 'position:function.keyword'}; position = index of the instruction in the translated program
+    (`2.then/3` inside a branch)"""
+    uses = {}
+    def add(e, tag):
+        for v in M.expr_vars(e):
+            uses.setdefault(v, set()).add(tag)
+    for k, i in enumerate(prog):
+        if i['op'] == 'if':
+            add(i['a'], '%s%d:if.lhs' % (prefix, k)); add(i['b'], '%s%d:if.rhs' % (prefix, k))
+            for br in ('then', 'else'):
+                for v, s in param_uses(i[br], '%s%d.%s/' % (prefix, k, br)).items():
+                    uses.setdefault(v, set()).update(s)
+            continue
+        for kw, e in _instr_slots(i):
+            add(e, '%s%d:%s' % (prefix, k, kw))
+    return uses
+
+def name_table(r):
+    """{parameter name: sorted uses} of one translation record (a parameter declared twice keeps the first index)"""
+    names = r['param_names']
+    u = param_uses(r['prog'])
+    return {nme: sorted(u.get(ix, ())) for ix, nme in enumerate(names) if names.index(nme) == ix}
+
+def conventional_keywords(name):
+    """the keywords a conventionally named parameter may be handed to (None: the name carries no convention):
+    mIJ -> mIJ ; nuK, nuKa, nuKb, nuK_0.. -> nuK ; gammaK -> gammaK ; hK -> hK"""
+    m = re.fullmatch(r'm([1-9])([1-9])[a-z]?', name)
+    if m and m.group(1) != m.group(2):
+        return {'m%s%s' % (m.group(1), m.group(2))}
+    m = re.fullmatch(r'nu([1-9])(?:[a-zA-Z]|_\w+)?', name)
+    if m:
+        return {'nu' + m.group(1)}
+    m = re.fullmatch(r'(gamma|h)([1-9])', name)
+    if m:
+        return {m.group(1) + m.group(2)}
+    return None
+
+def use_keyword(u):
+    """'2.else/1:two_pops.gamma1' -> 'gamma1'"""
+    return u.split(':', 1)[1].split('.', 1)[1]
+
+def convention_breaches(r, table=None):
+    """[(parameter name, [uses outside its conventional keyword])] for the conventionally named parameters of one model.
+    A use as the duration `T`, inside an `if` test or as a proportion is never conventional for these names."""
+    out = []
+    for nme, uses in (table or name_table(r)).items():
+        allowed = conventional_keywords(nme)
+        if allowed is None:
+            continue
+        bad = [u for u in uses if use_keyword(u) not in allowed]
+        if bad or not uses:
+            out.append((nme, bad))
+    return out
+
+def unpack_mismatch(r):
+    """positions where the local name bound by the unpacking differs from the declared name (tuple-style unpacking only)"""
+    if r.get('index_style') or r.get('calls') is not None and not r.get('unpack_names'):
+        return []
+    un, names = r.get('unpack_names') or [], r['param_names']
+    return [(k, un[k] if k < len(un) else None, names[k] if k < len(names) else None)
+            for k in range(max(len(un), len(names))) if (un[k] if k < len(un) else None) != (names[k] if k < len(names) else None)]
